@@ -216,11 +216,13 @@ type matz struct {
 	b          *state.TypedCollection[EntB]
 	resets     int
 	snaps      int
+	errcb      int
 }
 
 func newMatz(strict bool) *matz {
 	x := &matz{}
-	opts := []state.MaterializerOption{state.WithOnReset(func() { x.resets++ }), state.WithOnSnapshot(func(bool) { x.snaps++ })}
+	opts := []state.MaterializerOption{state.WithOnReset(func() { x.resets++ }), state.WithOnSnapshot(func(bool) { x.snaps++ }),
+		state.WithOnError(func(error) { x.errcb++ })}
 	if strict {
 		opts = append(opts, state.WithStrictSchema())
 	}
@@ -306,7 +308,23 @@ func stateScenario(rnd *rand.Rand, storeKind, dir string, n int) ([][]byte, erro
 	for i, e := range evs {
 		err := x.m.Apply(e)
 		emit(map[string]any{"e": "apply", "off": i + 1, "msg": msgs[i], "err": err != nil, "state": x.triples(),
-			"last": offIdx[x.m.LastOffset()], "resets": x.resets, "snaps": x.snaps})
+			"last": offIdx[x.m.LastOffset()], "resets": x.resets, "snaps": x.snaps, "errcb": x.errcb})
+		// now and then a message goes in through the direct entry points (decoded from the stored document)
+		if msgs[i].Kind != "garbage" && rnd.IntN(6) == 0 {
+			var derr error
+			switch msgs[i].Kind {
+			case "reset", "snapstart", "snapend":
+				var cm state.ControlMessage
+				json.Unmarshal(e.Data, &cm)
+				x.m.ApplyControlMessage(&cm)
+			default:
+				var cm state.ChangeMessage
+				json.Unmarshal(e.Data, &cm)
+				derr = x.m.ApplyChangeMessage(&cm)
+			}
+			emit(map[string]any{"e": "applydirect", "msg": msgs[i], "err": derr != nil, "state": x.triples(),
+				"last": offIdx[x.m.LastOffset()], "resets": x.resets, "snaps": x.snaps, "errcb": x.errcb})
+		}
 	}
 	// two sessions: Replay up to a split point (the callback stops it), then resume from LastOffset
 	y := newMatz(strict)
